@@ -151,6 +151,9 @@ def judge(events, outs):
                                 {"was": g0, "now": g1}))
                 model_dq = bool(g0["dq"])
             conds = []
+            if fam == "caltrack":
+                # the CalTRACK hourly wrapper has no gate (no flags, no timezone, no type check): §3/C04 excludes it
+                f = dict(f, fitted=True, foreign_type=False, missing_feature=False)
             if not f["fitted"]:
                 conds.append("unfitted")
             if f["foreign_type"]:
